@@ -10,6 +10,7 @@ func second(val x, val y) is return y
 func sum3(val x, val y, val z) is return x + (y + z)
 func add2(val x, val y) is return x + y
 """
+HEAD0 = "val exit = 0; val put = 1; val get = 2;\nvar s0; var s1;\n"      # no global arrays: the stack starts at the top of memory
 BINOPS = ['+', '-', '=', '~=', '<', '<=', '>', '>=', 'and', 'or']
 UNOPS = ['-', '~']
 # leaves usable inside main (l, m are locals of main; a[1], a[2] assigned before)
@@ -166,6 +167,21 @@ SKELETONS = {
  'local-val-var-copy': HEAD.replace("array a[4];", "array a[4]; array src[4];") + "proc main() is val step = 1; var i; { src[0] := 5; src[1] := s0; src[2] := 7; src[3] := 8; i := 0; while i < 4 do { a[i] := src[i]; i := i + step }; 0(a[1] + a[3]) }",
  'local-two-vals-vars': HEAD + "func t(val p) is val a1 = 1; val a2 = 2; var x; var y; { x := p + a1; y := f(x) + a2; return x + y } proc main() is 0(t(s0))",
  'local-val-in-func-call': HEAD + "func t(val p) is val one = 1; var x; { x := p; put('q', 0); return x + one } proc main() is 0(t(s0) + t(s1))",
+ 'noarr-stop-only': HEAD0 + "proc main() is stop",
+ 'noarr-skip-main': HEAD0 + "proc main() is skip",
+ 'noarr-stop-leaf': HEAD0 + "proc leaf() is stop proc main() is leaf()",
+ 'noarr-stop-leaf-arg': HEAD0 + "proc leaf(val x) is if x = 0 then stop else skip proc main() is { leaf(s0); leaf(0) }",
+ 'noarr-stop-if': HEAD0 + "proc main() is if s0 = 0 then stop else skip",
+ 'noarr-stop-local': HEAD0 + "proc main() is var x; { x := s0; if x = s1 then stop else skip }",
+ 'noarr-exit-leaf': HEAD0 + "proc leaf(val x) is exit(x) proc main() is leaf(s0)",
+ 'noarr-main-calls-return': HEAD0 + "func one() is return 1 proc main() is var x; x := one()",
+ 'noarr-put-return': HEAD0 + "proc main() is put('q', 0)",
+ 'stop-only': HEAD + "proc main() is stop",
+ 'stop-leaf': HEAD + "proc leaf() is stop proc main() is leaf()",
+ 'stop-leaf-arg': HEAD + "proc leaf(val x) is if x = 0 then stop else skip proc main() is { leaf(s0); leaf(0) }",
+ 'stop-if': HEAD + "proc main() is if s0 = 0 then stop else skip",
+ 'stop-in-func': HEAD + "func g1(val x) is { if x = 1 then stop else skip; return x } proc main() is 0(g1(s0) + g1(s1))",
+ 'skip-main': HEAD + "proc main() is skip",
  'stop': HEAD + "proc main() is { put('x', 0); if s0 = 0 then stop else skip; put('y', 0) }",
  'main-returns': HEAD + "proc main() is put('z', 0)",
  'proc-returns': HEAD + "proc noop(val x) is skip proc main() is { noop(s0); noop(s1); 0(3) }",
@@ -186,7 +202,41 @@ SKELETONS = {
  'global-array-top': "var s0; var s1; array big[100]; proc main() is { big[99] := s0; big[0] := s1; 0(big[99] - big[0]) }",
 }
 
+def stmt_programs(full=False, seed=0):
+    """control-flow structures: statement trees of depth <= 3 in a function body, with markers written to the output so
+    that the order of execution is observable; conditions over the symbolic arguments"""
+    rnd = random.Random(seed + 7)
+    conds = ['p < q', 'p = 0', 'q = 1', '(p + 1) = q', 'p ~= q', '(p < 3) and (q < 3)', 'p >= 2']
+    def gen(depth, k):
+        """yield (statement text, number of markers used) of the given depth; k = next marker index"""
+        m = lambda i: f"put({65 + i % 26}, 0)"
+        leaves = [(m(k), 1), (f"return {100 + k}", 0), ("stop", 0), (f"t := t + {k + 1}", 0), ("skip", 0)]
+        if depth == 0:
+            for x in leaves: yield x
+            return
+        subs = list(gen(depth - 1, k + 1))
+        subs = subs if full else rnd.sample(subs, min(len(subs), 4))
+        for c in (conds if full else rnd.sample(conds, 2)):
+            for a, na in subs:
+                for b, nb in (subs if full else rnd.sample(subs, min(len(subs), 2))):
+                    yield (f"if {c} then {a} else {b}", na + nb)
+        for a, na in subs:
+            yield (f"{{ i := 0; while i < 2 do {{ {a}; i := i + 1 }} }}", na)
+            for b, nb in (subs if full else rnd.sample(subs, min(len(subs), 2))):
+                yield (f"{{ {a}; {b} }}", na + nb)
+                yield (f"{{ {m(k)}; {a}; {b}; {m(k + 5)} }}", na + nb + 2)
+    out = []; seen = set()
+    for depth in (1, 2, 3):
+        items = list(gen(depth, 0))
+        if not full: items = rnd.sample(items, min(len(items), 60 if depth < 3 else 90))
+        for body, nm in items:
+            if body in seen: continue
+            seen.add(body)
+            src = HEAD + f"func body(val p, val q) is var i; var t; {{ t := 0; {body}; return t + 7 }}\nproc main() is 0(body(s0, s1))\n"
+            out.append((f"stmt:{body}", src))
+    return out
+
 def programs(tier='quick', seed=0):
     ex = expr_programs(depth2=True, full=(tier == 'thorough'), seed=seed)
     sk = [('skeleton:' + k, v) for k, v in SKELETONS.items()]
-    return sk + ex
+    return sk + ex + stmt_programs(full=(tier == 'thorough'), seed=seed)
